@@ -167,14 +167,15 @@ def Raw.hash (r : Raw) : Nat := Id.run do
 structure St where
   raw   : Raw
   frame : Option (Vector Nat (160 * 144))    -- result of `render`
+  ps    : Option Tetro.Model.Render.PState := none   -- the PPU after `render` / `next` (kept for `next`)
 
 def St.init : St := { raw := Raw.default, frame := none }
 
 /-- pixel value 4 = never written by renderPixel (the Go frame is zero-initialised, which is no grey shade) -/
 def blankFrame : Vector Nat (160 * 144) := Vector.replicate (160 * 144) 4
 
-def renderScene (sc : Scene) : Option (Vector Nat (160 * 144)) :=
-  (Tetro.Model.Render.run sc (17554 + 17556) (afterEnable (Vector.replicate 40 false) blankFrame)).map (·.frame)
+def renderScene (sc : Scene) : Option Tetro.Model.Render.PState :=
+  Tetro.Model.Render.run sc (17554 + 17556) (afterEnable (Vector.replicate 40 false) blankFrame)
 
 def frameHash (f : Vector Nat (160 * 144)) : Nat := Id.run do
   let mut h := 0
@@ -215,7 +216,7 @@ def step (st : St) (w : List String) : St × String :=
   | ["scene", seed, flags] => match parseHex seed, parseHex flags with
       | some sd, some fl =>
         let raw := (genScene fl).run' (sd % 4294967296) |>.run
-        ({ raw := raw, frame := none }, "ok ; " ++ hexN 8 raw.hash)
+        ({ st with raw := raw, frame := none }, "ok ; " ++ hexN 8 raw.hash)
       | _, _ => (st, "bad-op")
   | ["regs", a, b, c, d, e, f, g, h] =>
       match [a, b, c, d, e, f, g, h].mapM parseHex with
@@ -234,8 +235,16 @@ def step (st : St) (w : List String) : St × String :=
         else (st, "bad-op")
       | _, _ => (st, "bad-op")
   | ["render"] => match renderScene st.raw.toScene with
-      | some f => ({ st with frame := some f }, "ok ; " ++ hexN 8 (frameHash f))
-      | none => ({ st with frame := none }, "crash")
+      | some p => ({ st with frame := some p.frame, ps := some p }, "ok ; " ++ hexN 8 (frameHash p.frame))
+      | none => ({ st with frame := none, ps := none }, "crash")
+  | ["next"] => match st.ps with
+      | none => (st, "none")
+      | some p0 =>
+        if !(Tetro.Model.Render.enabled st.raw.toScene) then (st, "none") else
+        -- the scene was replaced at the frame boundary (LCD stays on): one more frame on the SAME PPU
+        match Tetro.Model.Render.run st.raw.toScene 17556 p0 with
+        | some p => ({ st with frame := some p.frame, ps := some p }, "ok ; " ++ hexN 8 (frameHash p.frame))
+        | none => ({ st with frame := none, ps := none }, "crash")
   | ["line", ys] => match ys.toNat?, st.frame with
       | some y, some f =>
         if y < 144 then
